@@ -11,6 +11,7 @@ with open(fd, "rb") as f:
         if line == b"": break
         try:
             splitted = line.strip().decode("ascii").split(":")
+            if len(splitted) < 3: raise ValueError
             cmd, name, rtype = splitted[0], ":".join(splitted[1:-1]), splitted[-1]
             if cmd == "PROBE": continue
             if rtype not in _CLEANUP_FUNCS: raise ValueError
@@ -50,6 +51,7 @@ inductive Cmd where
 /-- what reaches `sys.excepthook` through the per-line barrier -/
 inductive Err where
   | decode        -- UnicodeDecodeError: a byte ≥ 0x80 in the stripped line
+  | malformed     -- ValueError: fewer than three ':'-separated fields
   | unknownType   -- ValueError: last field is not a key of _CLEANUP_FUNCS
   | unknownCmd    -- RuntimeError: first field is not a command
   | key           -- KeyError: UNREGISTER / MAYBE_UNLINK of a name that is not in the registry
@@ -102,6 +104,9 @@ def cmdOf (s : Bytes) : Option Cmd :=
   else if s = bMAYBE_UNLINK then some .maybeUnlink
   else none
 
+/-- client side (`ResourceTracker._send`): the text `f"{cmd}:{name}:{rtype}"` of a request -/
+def wire (c : Cmd) (n : Name) (k : Kind) : Bytes := c.bytes ++ colon :: (n ++ colon :: k.bytes)
+
 /-! ## `line.strip().decode("ascii").split(":")` -/
 
 /-- ASCII whitespace removed by `bytes.strip()`: space, \t \n \v \f \r -/
@@ -140,10 +145,11 @@ def fields (s : Bytes) : Bytes × Name × Bytes :=
   (parts.headD [], joinWith colon parts.tail.dropLast, parts.getLastD [])
 
 /-- everything the loop body does before it touches the registry, in the code's order:
-    strip, decode, split, PROBE test, resource-type test, command dispatch -/
+    strip, decode, split, field-count test, PROBE test, resource-type test, command dispatch -/
 def parseLine (line : Bytes) : Parsed :=
   let s := strip line
   if ¬ isAscii s then .bad .decode
+  else if (splitOn colon s).length < 3 then .bad .malformed
   else
     let (cmd, name, rtype) := fields s
     if cmd = bPROBE then .probe
@@ -169,10 +175,10 @@ def set : Dict → Name → Int → Dict
   | [], n, v => [(n, v)]
   | (m, c) :: r, n, v => if m = n then (m, v) :: r else (m, c) :: set r n v
 
-/-- `del d[n]` -/
+/-- `del d[n]` (keys are unique, `Lemmas.Tracker.Inv`; every binding of `n` goes) -/
 def erase : Dict → Name → Dict
   | [], _ => []
-  | (m, c) :: r, n => if m = n then r else (m, c) :: erase r n
+  | (m, c) :: r, n => if m = n then erase r n else (m, c) :: erase r n
 
 def keys (d : Dict) : List Name := d.map (·.1)
 
